@@ -240,16 +240,20 @@ class MidCircuitWorld(World):
         ctx.objects_touched.add(("circuit", len(op["gates"])))
         gates_before = C.snap_circuit(circ)
 
+        # the caller's initial statevector is one long-lived complex array, handed to every call of this step
+        uinit = np.array(init, dtype=np.complex128) if init is not None else None
         if k == "exact":
-            V += self._exact(op, circ, init, tree, by_s, has_cm, sut_ctrl)
+            V += self._exact(op, circ, uinit, tree, by_s, has_cm, sut_ctrl)
         elif k == "applied":
             V += self._applied(op, circ, tree, has_cm, sut_ctrl)
         elif k == "shots":
-            V += self._shots(op, circ, init, tree, by_s, has_cm, sut_ctrl)
+            V += self._shots(op, circ, uinit, tree, by_s, has_cm, sut_ctrl)
         elif k == "desired_shots":
-            V += self._desired_shots(op, circ, init, tree, by_s, has_cm, sut_ctrl)
+            V += self._desired_shots(op, circ, uinit, tree, by_s, has_cm, sut_ctrl)
         else:
             raise HarnessError(k)
+        if uinit is not None and not np.array_equal(uinit, np.asarray(init, dtype=np.complex128)):
+            V.append(Violation("C10", "initial-statevector-modified", k, {"norm_after": float(np.linalg.norm(uinit))}))
         if C.snap_circuit(circ) != gates_before:
             V.append(Violation("C10", "source-circuit-mutated", k, {"first_diff": [a for a, b in zip(gates_before, C.snap_circuit(circ)) if a != b][:1]}))
         return V
@@ -264,7 +268,7 @@ class MidCircuitWorld(World):
             if sut_ctrl is not None and hasattr(sut_ctrl, "calls"):
                 sut_ctrl.calls.clear()
             try:
-                f, sv = b.simulate(circ, return_statevector=True, initial_statevector=(init.copy() if init is not None else None),
+                f, sv = b.simulate(circ, return_statevector=True, initial_statevector=init,
                                    desired_meas_result=s, save_mid_circuit_meas=True)
             except Exception as ex:
                 ctx.outcome("exact", "refused-unexpectedly")
@@ -335,7 +339,7 @@ class MidCircuitWorld(World):
         if zero:
             ctx.fault("zero_probability_postselection")
             try:
-                f, sv = b.simulate(circ, return_statevector=True, initial_statevector=(init.copy() if init is not None else None),
+                f, sv = b.simulate(circ, return_statevector=True, initial_statevector=init,
                                    desired_meas_result=zero, save_mid_circuit_meas=True)
                 V.append(Violation("C10", "zero-probability-outcome-answered", "exact", {"string": zero, "frequencies": dict(list(f.items())[:4]), "op": op}))
             except Exception:
@@ -406,7 +410,7 @@ class MidCircuitWorld(World):
         if script is not None:
             rngseam.SEAM.arm(script=script * (ns if ns <= 7 else 1))
         try:
-            f, sv = b.simulate(circ, return_statevector=ret_sv, initial_statevector=(init.copy() if init is not None else None),
+            f, sv = b.simulate(circ, return_statevector=ret_sv, initial_statevector=init,
                                save_mid_circuit_meas=save_mid)
         except Exception as ex:
             rngseam.SEAM.arm()
@@ -518,7 +522,7 @@ class MidCircuitWorld(World):
                 return V
             ctx.fault("retry_exhaustion")
             try:
-                f, _ = b.simulate(circ, initial_statevector=(init.copy() if init is not None else None), desired_meas_result=zero)
+                f, _ = b.simulate(circ, initial_statevector=init, desired_meas_result=zero)
             except Exception:
                 ctx.outcome("desired_shots", "refused-as-expected")
                 ctx.probe("C10.retry_exhausted")
@@ -534,7 +538,7 @@ class MidCircuitWorld(World):
             return V
         s = br.outcomes
         try:
-            f, _ = b.simulate(circ, initial_statevector=(init.copy() if init is not None else None), desired_meas_result=s)
+            f, _ = b.simulate(circ, initial_statevector=init, desired_meas_result=s)
         except Exception as ex:
             ctx.outcome("desired_shots", "refused-unexpectedly")
             return [Violation("C10", "unexpected-refusal", site, {"exception": repr(ex)[:300], "string": s, "branch_prob": br.prob, "n_shots": ns, "op": op})]
